@@ -302,9 +302,8 @@ Section WithLgk.
           -- eapply Permutation_in; [exact Hperm|exact Hx].
           -- eapply Permutation_in; [apply Permutation_sym; exact Hperm|exact Hx].
     - eexists. split; [reflexivity|]. split.
-      + constructor; cbn [a_lg a_cnt a_ent]; auto.
-        * apply (ai_lgk _ _ Hinv).
-        * now symmetry.
+      + constructor; cbn [a_lg a_cnt a_ent]; auto;
+          try (apply (ai_lgk _ _ Hinv)); try (now symmetry); try lia.
       + cbn [aents a_ent]. apply (rep_after_insert (nonzero (a_ent a)) (nonzero ent')); auto.
   Qed.
 End WithLgk.
